@@ -45,31 +45,52 @@ Proof.
   rewrite H1, H2, H3. auto.
 Qed.
 
-Lemma fwd_group_counts : forall u qs bl n us bl' o,
-  fwd_group qs bl n us = (bl', o) ->
-  (tot u bl' + n_fwd u o)%nat = (tot u bl + cnt u us)%nat /\ n_fail u o = 0%nat /\ n_cancel u o = 0%nat.
+Lemma ended_rr : forall u qids us i, ended u (rr qids i us) = cnt u us.
+Proof. intros u qids us i. destruct (rr_counts u qids us i) as [H1 [H2 H3]]. unfold ended. lia. Qed.
+
+Lemma ended_put : forall u q us, ended u [OPut q us] = cnt u us.
+Proof. intros; unfold ended, n_fwd, n_fail, n_cancel; simpl; lia. Qed.
+
+Lemma n_cancel_rr : forall u qids us i, n_cancel u (rr qids i us) = 0%nat.
+Proof. intros u qids us i. destruct (rr_counts u qids us i) as [_ [_ H]]. exact H. Qed.
+
+(* one raptor name of a drain: what is kept, forwarded, failed or canceled is
+   what was collected for it; the cancel list loses one entry per canceled task *)
+Lemma fwd_group_counts : forall u qs gn bl cl n us bl' cl' o,
+  fwd_group qs gn bl cl n us = (bl', cl', o) ->
+  (tot u bl' + ended u o)%nat = (tot u bl + cnt u us)%nat
+  /\ n_cancel u o = Nat.min (cnt u cl) (cnt u us) /\ (cnt u cl' + n_cancel u o)%nat = cnt u cl.
 Proof.
-  intros u qs bl n us bl' o H. unfold fwd_group in H.
-  destruct (alook n qs) as [q|].
-  - injection H as <- <-. unfold n_fwd, n_fail, n_cancel; simpl. repeat split; lia.
-  - destruct (negb (is_nil qs) && (n =? star)).
-    + injection H as <- <-. destruct (rr_counts u (map snd qs) us 0) as [H1 [H2 H3]].
-      rewrite H1, H2, H3. auto.
-    + injection H as <- <-. rewrite tot_aext. unfold n_fwd, n_fail, n_cancel; simpl. repeat split; lia.
+  intros u qs gn bl cl n us bl' cl' o H. unfold fwd_group in H.
+  destruct (sift cl us) as [[k c1] o0] eqn:Es.
+  destruct (sift_spec u _ _ _ _ _ Es) as [A [B [C [D F]]]].
+  assert (E0 : ended u o0 = n_cancel u o0) by (unfold ended; lia).
+  destruct (is_nil k) eqn:Ek.
+  - injection H as <- <- <-. destruct k; [|discriminate]. simpl in A. repeat split; lia.
+  - destruct (alook n qs) as [q|].
+    + injection H as <- <- <-. rewrite ended_app, ended_put, n_cancel_app.
+      assert (n_cancel u [OPut q k] = 0%nat) by reflexivity. repeat split; lia.
+    + destruct (negb (is_nil qs) && (n =? star)).
+      * injection H as <- <- <-. rewrite ended_app, ended_rr, n_cancel_app, n_cancel_rr. repeat split; lia.
+      * destruct (zmem n gn).
+        -- injection H as <- <- <-. rewrite ended_app, ended_map_OFail, n_cancel_app, n_cancel_map_OFail.
+           repeat split; lia.
+        -- injection H as <- <- <-. rewrite tot_aext. repeat split; lia.
 Qed.
 
-Lemma fwd_groups_counts : forall u qs g bl bl' o,
-  fwd_groups qs bl g = (bl', o) ->
-  (tot u bl' + n_fwd u o)%nat = (tot u bl + tot u g)%nat /\ n_fail u o = 0%nat /\ n_cancel u o = 0%nat.
+Lemma fwd_groups_counts : forall u qs gn g bl cl bl' cl' o,
+  fwd_groups qs gn bl cl g = (bl', cl', o) ->
+  (tot u bl' + ended u o)%nat = (tot u bl + tot u g)%nat
+  /\ n_cancel u o = Nat.min (cnt u cl) (tot u g) /\ (cnt u cl' + n_cancel u o)%nat = cnt u cl.
 Proof.
-  intros u qs g; induction g as [|[n us] g IH]; intros bl bl' o H; simpl in H.
-  - injection H as <- <-. simpl. auto.
-  - destruct (fwd_group qs bl n us) as [bl1 o1] eqn:E1.
-    destruct (fwd_groups qs bl1 g) as [bl2 o2] eqn:E2.
-    injection H as <- <-.
-    destruct (fwd_group_counts u _ _ _ _ _ _ E1) as [A1 [A2 A3]].
-    destruct (IH _ _ _ E2) as [B1 [B2 B3]].
-    rewrite n_fwd_app, n_fail_app, n_cancel_app. simpl. repeat split; lia.
+  intros u qs gn g; induction g as [|[n us] g IH]; intros bl cl bl' cl' o H; simpl in H.
+  - injection H as <- <- <-. rewrite ended_nil. simpl. unfold n_cancel; simpl. repeat split; lia.
+  - destruct (fwd_group qs gn bl cl n us) as [[bl1 cl1] o1] eqn:E1.
+    destruct (fwd_groups qs gn bl1 cl1 g) as [[bl2 cl2] o2] eqn:E2.
+    injection H as <- <- <-.
+    destruct (fwd_group_counts u _ _ _ _ _ _ _ _ _ E1) as [A1 [A2 A3]].
+    destruct (IH _ _ _ _ _ E2) as [B1 [B2 B3]].
+    rewrite ended_app, n_cancel_app. simpl. repeat split; lia.
 Qed.
 
 Lemma cancel_walk_counts : forall u us bl bl' c,
@@ -83,7 +104,7 @@ Proof.
 Qed.
 
 Lemma n_inq_arrive : forall u s b,
-  n_inq u (mkS (inq s ++ [b]) (queues s) (backlog s)) = (n_inq u s + t_arr u b)%nat.
+  n_inq u (mkS (inq s ++ [b]) (queues s) (backlog s) (clist s) (gone s)) = (n_inq u s + t_arr u b)%nat.
 Proof.
   intros. unfold n_inq. simpl. rewrite concat_app, t_arr_app. simpl. rewrite app_nil_r. reflexivity.
 Qed.
@@ -100,11 +121,11 @@ Proof.
   intros u s o s' e H. destruct o as [b| |n q|n|us]; simpl in H.
   - injection H as <- <-. unfold waiting. rewrite n_inq_arrive. simpl. unfold ended, n_fwd, n_fail, n_cancel; simpl. lia.
   - unfold drain in H.
-    destruct (fwd_groups (queues s) (backlog s) (collect (concat (inq s)))) as [bl o] eqn:E.
+    destruct (fwd_groups (queues s) (gone s) (backlog s) (clist s) (collect (concat (inq s)))) as [[bl cl] o] eqn:E.
     injection H as <- <-.
-    destruct (fwd_groups_counts u _ _ _ _ _ E) as [A1 [A2 A3]].
+    destruct (fwd_groups_counts u _ _ _ _ _ _ _ _ E) as [A1 _].
     rewrite collect_tot in A1. rewrite ended_app, sched_tail_counts.
-    unfold waiting, ended, n_inq. simpl. lia.
+    unfold waiting, n_inq. simpl. unfold n_inq in A1. lia.
   - unfold register in H.
     unfold relay_key in H.
     destruct (alook n (backlog s)) as [l1|] eqn:E1.
@@ -208,40 +229,57 @@ Record inv (s : state) : Prop := mkInv {
   inv_bkeys : NoDup (map fst (backlog s));
   inv_qkeys : NoDup (map fst (queues s));
   inv_reg   : forall n, alook n (queues s) <> None -> absent n (backlog s);
-  inv_star  : queues s <> [] -> absent star (backlog s)
+  inv_star  : queues s <> [] -> absent star (backlog s);
+  inv_gone_b : forall n, In n (gone s) -> absent n (backlog s);
+  inv_gone_q : forall n, In n (gone s) -> absent n (queues s)
 }.
 
 Lemma inv_init : inv init.
-Proof. constructor; simpl; try constructor; intros; try reflexivity; congruence. Qed.
+Proof. constructor; simpl; try constructor; intros; try reflexivity; try congruence; contradiction. Qed.
 
-Lemma fwd_group_inv : forall qs bl n us bl' o,
-  fwd_group qs bl n us = (bl', o) ->
-  NoDup (map fst bl) -> (forall k, alook k qs <> None -> absent k bl) -> (qs <> [] -> absent star bl) ->
-  NoDup (map fst bl') /\ (forall k, alook k qs <> None -> absent k bl') /\ (qs <> [] -> absent star bl').
+Definition bl_ok (qs : list (Z * Z)) (gn : list Z) (bl : list (Z * list Z)) : Prop :=
+  NoDup (map fst bl) /\ (forall k, alook k qs <> None -> absent k bl) /\ (qs <> [] -> absent star bl)
+  /\ (forall k, In k gn -> absent k bl).
+
+Lemma fwd_group_inv : forall qs gn bl cl n us bl' cl' o,
+  fwd_group qs gn bl cl n us = (bl', cl', o) -> bl_ok qs gn bl -> bl_ok qs gn bl'.
 Proof.
-  intros qs bl n us bl' o H Hd Hr Hs. unfold fwd_group in H.
-  destruct (alook n qs) as [q|] eqn:E.
-  - injection H as <- <-. auto.
-  - destruct (negb (is_nil qs) && (n =? star)) eqn:E2.
-    + injection H as <- <-. auto.
-    + injection H as <- <-. split; [apply keys_aext_nodup; exact Hd|]. split.
-      * intros k Hk. unfold absent. rewrite alook_aext_other; [apply Hr; exact Hk|].
-        intros ->. congruence.
-      * intros Hq. unfold absent. rewrite alook_aext_other; [apply Hs; exact Hq|].
-        destruct qs; [congruence|]. simpl in E2. intros Heq. rewrite <- Heq in E2. rewrite Z.eqb_refl in E2. discriminate.
+  intros qs gn bl cl n us bl' cl' o H [Hd [Hr [Hs Hg]]]. unfold fwd_group in H.
+  destruct (sift cl us) as [[k c1] o0].
+  destruct (is_nil k); [injection H as <- <- <-; repeat split; assumption|].
+  destruct (alook n qs) as [q|] eqn:E; [injection H as <- <- <-; repeat split; assumption|].
+  destruct (negb (is_nil qs) && (n =? star)) eqn:E2; [injection H as <- <- <-; repeat split; assumption|].
+  destruct (zmem n gn) eqn:E3; injection H as <- <- <-; [repeat split; assumption|].
+  split; [apply keys_aext_nodup; exact Hd|]. split; [|split].
+  - intros j Hj. unfold absent. rewrite alook_aext_other; [apply Hr; exact Hj|]. intros ->. congruence.
+  - intros Hq. unfold absent. rewrite alook_aext_other; [apply Hs; exact Hq|].
+    destruct qs; [congruence|]. simpl in E2. intros Heq. rewrite <- Heq in E2. rewrite Z.eqb_refl in E2. discriminate.
+  - intros j Hj. unfold absent. rewrite alook_aext_other; [apply Hg; exact Hj|].
+    intros ->. apply zmem_In in Hj. congruence.
 Qed.
 
-Lemma fwd_groups_inv : forall qs g bl bl' o,
-  fwd_groups qs bl g = (bl', o) ->
-  NoDup (map fst bl) -> (forall k, alook k qs <> None -> absent k bl) -> (qs <> [] -> absent star bl) ->
-  NoDup (map fst bl') /\ (forall k, alook k qs <> None -> absent k bl') /\ (qs <> [] -> absent star bl').
+Lemma fwd_groups_inv : forall qs gn g bl cl bl' cl' o,
+  fwd_groups qs gn bl cl g = (bl', cl', o) -> bl_ok qs gn bl -> bl_ok qs gn bl'.
 Proof.
-  intros qs g; induction g as [|[n us] g IH]; intros bl bl' o H Hd Hr Hs; simpl in H.
-  - injection H as <- <-. auto.
-  - destruct (fwd_group qs bl n us) as [bl1 o1] eqn:E1.
-    destruct (fwd_groups qs bl1 g) as [bl2 o2] eqn:E2. injection H as <- <-.
-    destruct (fwd_group_inv _ _ _ _ _ _ E1 Hd Hr Hs) as [A1 [A2 A3]].
-    exact (IH _ _ _ E2 A1 A2 A3).
+  intros qs gn g; induction g as [|[n us] g IH]; intros bl cl bl' cl' o H Hok; simpl in H.
+  - injection H as <- <- <-. exact Hok.
+  - destruct (fwd_group qs gn bl cl n us) as [[bl1 cl1] o1] eqn:E1.
+    destruct (fwd_groups qs gn bl1 cl1 g) as [[bl2 cl2] o2] eqn:E2. injection H as <- <- <-.
+    exact (IH _ _ _ _ _ E2 (fwd_group_inv _ _ _ _ _ _ _ _ _ E1 Hok)).
+Qed.
+
+Lemma In_gadd : forall k n g, In k (gadd n g) <-> k = n \/ In k g.
+Proof.
+  intros k n g. unfold gadd. destruct (zmem n g) eqn:E.
+  - apply zmem_In in E. split; [tauto | intros [->|H]; assumption].
+  - rewrite in_app_iff. simpl. split; [intros [H|[H|[]]]; auto | intros [->|H]; auto].
+Qed.
+
+Lemma In_gdel : forall k n g, In k (gdel n g) <-> k <> n /\ In k g.
+Proof.
+  intros k n g. unfold gdel. rewrite filter_In. split.
+  - intros [H1 H2]. split; [|exact H1]. intros ->. rewrite Z.eqb_refl in H2. discriminate.
+  - intros [H1 H2]. split; [exact H2|]. destruct (k =? n) eqn:E; [lia | reflexivity].
 Qed.
 
 Lemma cancel_walk_spec : forall us bl, cancel_walk us bl = (unnamed us bl, concat (map (fun p => matches us (snd p)) bl)).
@@ -293,12 +331,12 @@ Qed.
 
 Lemma step_inv : forall s o s' e, step s o = (s', e) -> inv s -> inv s'.
 Proof.
-  intros s o s' e H [Hb Hq Hr Hs]. destruct o as [b| |n q|n|us]; simpl in H.
+  intros s o s' e H [Hb Hq Hr Hs Hgb Hgq]. destruct o as [b| |n q|n|us]; simpl in H.
   - injection H as <- <-. constructor; simpl; assumption.
   - unfold drain in H.
-    destruct (fwd_groups (queues s) (backlog s) (collect (concat (inq s)))) as [bl o] eqn:E.
+    destruct (fwd_groups (queues s) (gone s) (backlog s) (clist s) (collect (concat (inq s)))) as [[bl cl] o] eqn:E.
     injection H as <- <-.
-    destruct (fwd_groups_inv _ _ _ _ _ E Hb Hr Hs) as [A1 [A2 A3]].
+    destruct (fwd_groups_inv _ _ _ _ _ _ _ _ E (conj Hb (conj Hr (conj Hs Hgb)))) as [A1 [A2 [A3 A4]]].
     constructor; simpl; assumption.
   - unfold register in H. rewrite relay_key_spec in H by exact Hb.
     rewrite relay_key_spec in H by (apply keys_without_nodup; exact Hb).
@@ -309,28 +347,46 @@ Proof.
       * apply Z.eqb_eq in E; subst k. apply absent_without. left; reflexivity.
       * apply absent_without_mono. apply Hr. exact Hk.
     + intros _. apply absent_without. right; left; reflexivity.
+    + intros k Hk. apply In_gdel in Hk. apply absent_without_mono. apply Hgb. tauto.
+    + intros k Hk. apply In_gdel in Hk. unfold absent. rewrite alook_aset.
+      destruct (n =? k) eqn:E; [lia | apply Hgq; tauto].
   - unfold unregister in H.
     assert (Hb' : forall bl o, (match alook n (backlog s) with
                                 | Some us => (adel n (backlog s), map OFail us)
                                 | None => (backlog s, [])
                                 end) = (bl, o) ->
-                  NoDup (map fst bl) /\ (forall k, absent k (backlog s) -> absent k bl)).
-    { intros bl o Hm. destruct (alook n (backlog s)); injection Hm as <- <-.
-      - split; [apply keys_adel_nodup; exact Hb | intros k Hk; apply alook_adel_none; exact Hk].
+                  NoDup (map fst bl) /\ (forall k, absent k (backlog s) -> absent k bl) /\ absent n bl).
+    { intros bl o Hm. destruct (alook n (backlog s)) eqn:En; injection Hm as <- <-.
+      - split; [apply keys_adel_nodup; exact Hb|]. split; [intros k Hk; apply alook_adel_none; exact Hk|].
+        apply alook_adel_same; exact Hb.
       - auto. }
     destruct (match alook n (backlog s) with
               | Some us => (adel n (backlog s), map OFail us) | None => (backlog s, []) end) as [bl o2] eqn:E2.
-    destruct (Hb' _ _ eq_refl) as [B1 B2].
-    destruct (alook n (queues s)) eqn:E1; injection H as <- <-; constructor; simpl; auto.
-    + apply keys_adel_nodup; exact Hq.
-    + intros k Hk. apply B2. apply Hr. eapply alook_adel_some; exact Hk.
-    + intros Hne. apply B2. apply Hs. intros Hnil. rewrite Hnil in Hne. simpl in Hne. congruence.
+    destruct (Hb' _ _ eq_refl) as [B1 [B2 B3]].
+    assert (Hq' : forall qs o, (match alook n (queues s) with
+                                | None => (queues s, [OWarn n]) | Some _ => (adel n (queues s), []) end) = (qs, o) ->
+                  NoDup (map fst qs) /\ (forall k, alook k qs <> None -> alook k (queues s) <> None)
+                  /\ absent n qs /\ (qs <> [] -> queues s <> [])).
+    { intros qs o Hm. destruct (alook n (queues s)) eqn:En; injection Hm as <- <-.
+      - split; [apply keys_adel_nodup; exact Hq|]. split; [intros k Hk; eapply alook_adel_some; exact Hk|].
+        split; [apply alook_adel_same; exact Hq|]. intros Hne Hnil. rewrite Hnil in Hne. simpl in Hne. congruence.
+      - auto. }
+    destruct (match alook n (queues s) with
+              | None => (queues s, [OWarn n]) | Some _ => (adel n (queues s), []) end) as [qs o1] eqn:E1.
+    destruct (Hq' _ _ eq_refl) as [Q1 [Q2 [Q3 Q4]]].
+    injection H as <- <-. constructor; simpl; auto.
+    + intros k Hk. apply In_gadd in Hk. destruct Hk as [->|Hk]; [exact B3 | apply B2; apply Hgb; exact Hk].
+    + intros k Hk. apply In_gadd in Hk. destruct Hk as [->|Hk]; [exact Q3|].
+      unfold absent. destruct (alook k qs) eqn:Ek; [|reflexivity].
+      exfalso. assert (alook k qs <> None) by congruence. apply Q2 in H. apply H. apply Hgq. exact Hk.
   - unfold cancel in H. rewrite cancel_walk_spec in H. injection H as <- <-.
     constructor; simpl.
     + rewrite unnamed_keys; exact Hb.
     + exact Hq.
     + intros k Hk. unfold absent. rewrite unnamed_look. rewrite (Hr k Hk). reflexivity.
     + intros Hne. unfold absent. rewrite unnamed_look. rewrite (Hs Hne). reflexivity.
+    + intros k Hk. unfold absent. rewrite unnamed_look. rewrite (Hgb k Hk). reflexivity.
+    + exact Hgq.
 Qed.
 
 Lemma run_inv : forall ops s s' e, run s ops = (s', e) -> inv s -> inv s'.
@@ -360,9 +416,10 @@ Theorem register_relays_all : forall s n q, inv s ->
   /\ backlog s' = without [n; star] (backlog s)
   /\ absent n (backlog s') /\ absent star (backlog s')
   /\ (forall k, k <> n -> k <> star -> alook k (backlog s') = alook k (backlog s))
-  /\ inq s' = inq s /\ alook n (queues s') = Some q.
+  /\ inq s' = inq s /\ alook n (queues s') = Some q
+  /\ gone s' = gdel n (gone s) /\ clist s' = clist s.
 Proof.
-  intros s n q [Hb Hq Hr Hs]. simpl. unfold register.
+  intros s n q [Hb Hq Hr Hs _ _]. simpl. unfold register.
   rewrite relay_key_spec by exact Hb.
   rewrite relay_key_spec by (apply keys_without_nodup; exact Hb).
   rewrite without_without. simpl. repeat split.
@@ -384,9 +441,9 @@ Theorem unregister_fails_exactly : forall s n, inv s ->
   /\ backlog s' = without [n] (backlog s) /\ queues s' = without [n] (queues s)
   /\ absent n (backlog s') /\ absent n (queues s')
   /\ (forall k, k <> n -> alook k (backlog s') = alook k (backlog s))
-  /\ inq s' = inq s.
+  /\ inq s' = inq s /\ gone s' = gadd n (gone s) /\ clist s' = clist s.
 Proof.
-  intros s n [Hb Hq Hr Hs]. simpl. unfold unregister, key_list.
+  intros s n [Hb Hq Hr Hs _ _]. simpl. unfold unregister, key_list.
   assert (Q : (match alook n (queues s) with
                | None => (queues s, [OWarn n]) | Some _ => (adel n (queues s), []) end)
               = (without [n] (queues s), match alook n (queues s) with None => [OWarn n] | Some _ => [] end)).
@@ -415,12 +472,13 @@ Proof.
   destruct (zmem u us) eqn:E; [apply zmem_In in E; tauto | reflexivity].
 Qed.
 
-(* Cancel: every named uid leaves every backlog and is canceled as often as it
-   waited there; tasks not named keep their place and order; nothing is
+(* Cancel: the uids are registered on the cancel list; every named uid leaves
+   every backlog and is canceled as often as it waited there; tasks not named keep their place and order; nothing is
    forwarded or failed; queue and registrations are untouched *)
 Theorem cancel_in_backlog : forall s us,
   let '(s', e) := step s (Cancel us) in
   backlog s' = unnamed us (backlog s) /\ inq s' = inq s /\ queues s' = queues s
+  /\ clist s' = clist s ++ us /\ gone s' = gone s
   /\ (exists c, e = [OCancel c] /\ (forall u, In u c -> In u us)
                 /\ forall u, In u us -> cnt u c = tot u (backlog s))
   /\ (forall u, In u us -> tot u (backlog s') = 0%nat)
